@@ -282,6 +282,14 @@ theorem oinv_step {α} (eqv : α → α → Bool) (hash : α → Nat) (dflt : α
       simp only [Bool.false_eq_true, if_false]
       obtain ⟨h1, h2, h3, h4, h5, h6⟩ := hi
       exact ⟨h1, h2, h3, h4, by simp [cnt_append, cnt] at h5 ⊢; omega, h6⟩
+  | cloneWeak k =>
+    simp only [OWorld.step, OWorld.cloneWeak]
+    cases hc : w.weaks.getD k false with
+    | false => simp; exact hi
+    | true =>
+      simp only [Bool.not_true, Bool.false_eq_true, if_false]
+      obtain ⟨h1, h2, h3, h4, h5, h6⟩ := hi
+      exact ⟨h1, h2, h3, h4, by simp [cnt_append, cnt] at h5 ⊢; omega, h6⟩
   | dropWeak k =>
     simp only [OWorld.step, OWorld.dropWeak]
     cases hc : w.weaks.getD k false with
